@@ -1,9 +1,63 @@
 package main
 
 import (
-	_ "golang.org/x/tools/go/packages"
-	_ "golang.org/x/tools/go/ssa"
-	_ "golang.org/x/tools/go/ssa/ssautil"
+	"flag"
+	"fmt"
+	"os"
+	"strings"
+
+	"verif/engine/vc"
 )
 
-func main() {}
+func main() {
+	if len(os.Args) > 2 && (os.Args[1] == "check" || os.Args[1] == "expected") {
+		prop := os.Args[2]
+		thorough := false
+		repo := "/repo"
+		for _, a := range os.Args[3:] {
+			if a == "--thorough" {
+				thorough = true
+			}
+			if strings.HasPrefix(a, "--repo=") {
+				repo = strings.TrimPrefix(a, "--repo=")
+			}
+		}
+		code := runCheck(prop, thorough, repo, os.Args[1] == "expected")
+		vc.CleanupScratch()
+		os.Exit(code)
+	}
+	repo := flag.String("repo", "/repo", "repository root")
+	pkgs := flag.String("pkgs", "", "comma separated package patterns")
+	unit := flag.String("unit", "", "unit name filter (substring)")
+	dump := flag.String("dump", "", "dump queries of obligations matching substring")
+	timeout := flag.Int("timeout", 10000, "solver timeout ms")
+	prelude := flag.String("prelude", "/verif/prelude", "prelude directory")
+	flag.Parse()
+	defer vc.CleanupScratch()
+	eng, err := vc.Load(*repo, strings.Split(*pkgs, ","), *prelude)
+	if err != nil {
+		fmt.Println("load error:", err)
+		os.Exit(2)
+	}
+	for name, spec := range eng.Contracts {
+		if spec.Assumed || (*unit != "" && !strings.Contains(name, *unit)) {
+			continue
+		}
+		rep := eng.GenerateUnit(spec)
+		fmt.Printf("== unit %s: %d obligations, %d blocks, %d instrs, gen %d ms\n", rep.Unit, len(rep.Obls), rep.Blocks, rep.Instrs, rep.GenMs)
+		for _, e := range rep.Errors {
+			fmt.Println("   ERROR:", e)
+		}
+		for _, a := range rep.Abstracted {
+			fmt.Println("   abstracted:", a)
+		}
+		vc.SolveAll(rep.Obls, *timeout, 1)
+		for _, o := range rep.Obls {
+			fmt.Printf("   %-70s %-8s %-14s %5d ms  %v\n", o.Name, o.Res.Verdict, o.Res.Backend, o.Res.Ms, o.Props)
+			if *dump != "" && strings.Contains(o.Name, *dump) {
+				fmt.Println(o.Query)
+				fmt.Println(o.Res.Output)
+			}
+		}
+	}
+}
